@@ -535,7 +535,41 @@ def c13_13(ctx):
     return shared_obligations(ctx, ["taproot", "tx", "pecc"], "the result would depend on something other than the arguments and the object's current state")
 
 
+def c13_14(ctx):
+    """MuSig partial nonce k = k_1 + b * k_2 mod n is computed for *every* pair of secret nonces in [1, n-1]: compute_k is evaluated on the
+    boundary values {1, 2, n-2, n-1} and a middle value for both nonces and coefficient b in {0, 1, n-1} (compute_coefficient is a stand-in);
+    nothing in that range may be refused and the result must be the formula's"""
+    from sa.cells import Evaluator, Obj, Raised, Undecided
+    from spec.constants import SECP256K1
+    N = SECP256K1["N"]
+    spec = "taproot:MuSigTapScript.compute_k"
+    mod, fn = rl.get(ctx, spec)
+    vals = (1, 2, 1 << 255, N - 2, N - 1)
+    cells = 0
+    for b in (0, 1, N - 1):
+        for k1 in vals:
+            for k2 in vals:
+                cells += 1
+                me = Obj("taproot", "MuSigTapScript", {})
+                try:
+                    r = Evaluator(ctx.repo, method_hooks={("MuSigTapScript", "compute_coefficient"): lambda o, *a, **k: b}).call(spec, [(k1, k2), (None, None), b"m"], self_obj=me)
+                except Raised as x:
+                    return [ctx.bad(spec, "secret nonces (%s, %s) are refused (%s) although both lie in [1, n-1]: the signer holding them cannot take part" % (
+                        _nm(k1, N), _nm(k2, N), x.name), fn, mod, key="nonce-domain")]
+                except Undecided as u:
+                    return [ctx.err(spec, "compute_k not evaluable: %s" % u, fn, mod)]
+                if r != (k1 + b * k2) % N:
+                    return [ctx.bad(spec, "k for nonces (%s, %s) and coefficient %s is not k_1 + b * k_2 mod n" % (_nm(k1, N), _nm(k2, N), _nm(b, N)), fn, mod, key="nonce-domain")]
+    ctx.count("cells", cells)
+    return [ctx.ok(spec, "k = k_1 + b * k_2 mod n for all %d boundary combinations of nonces in [1, n-1]" % cells, fn, mod, key="nonce-domain")]
+
+
+def _nm(v, N):
+    return {N - 1: "n-1", N - 2: "n-2", 1 << 255: "2^255"}.get(v, str(v))
+
+
 OBLIGATIONS = [
+    ("C13.14", "CELLS nonce domain", c13_14),
     ("C13.13", "SHARED", c13_13),
     ("C13.12", "SET-ORDER", c13_12),
     ("C13.11", "MEMO", c13_11),
